@@ -2,6 +2,7 @@
 pub mod evidence;
 pub mod dommodel;
 pub mod domx;
+pub mod deepdom;
 pub mod forkpool;
 pub mod sched;
 pub mod c18;
